@@ -153,7 +153,7 @@ class Gen:
         elif k < 0.90:
             self.hist.append((SLC, [sid]))
         elif k < 0.93:
-            self.hist.append((DRN, [sid]))
+            self.hist.append((DRN, [sid] if rng.random() < 0.5 else [sid, rng.randint(0, 3)]))
         elif k < 0.95:
             self.hist.append((CLR, [sid]))
         else:
@@ -402,5 +402,73 @@ def purge_history(rng, nsids=None):
         observe(new)
         if rng.random() < 0.4:
             g.hist.append((wg.M, []))
+    g.hist.append((DROPW, []))
+    return g.hist
+
+
+def far_history(rng, sid, base=262144):
+    """indices straddling the top layer boundary of the hierarchical bit set (64^3), reached with
+    genuinely live entities"""
+    g = Gen(rng)
+    g.register(sid)
+    n = base + rng.randint(3, 9)
+    g.hist.append((wg.CI, [n]))
+    g.created(n)
+    picks = [0, 63, 64, 4095, 4096, base - 1, base, base + 1, n - 1] + [rng.randrange(n) for _ in range(4)]
+    rng.shuffle(picks)
+    for h in picks:
+        u, v = g.tok(sid)
+        g.hist.append((INS, [sid, h, u, v]))
+        if rng.random() < 0.3:
+            g.hist.append((CNT, [sid]))
+    g.hist.append((CNT, [sid]))
+    g.hist.append((MSK, [sid]))
+    for h in rng.sample(picks, 5):
+        g.hist.append((rng.choice([GET, REM, CONT]), [sid, h]))
+        g.hist.append((CNT, [sid]))
+    if sid % 5 != 2 and sid < 6:      # no slice dump of a 262k-cell default-filled vector
+        g.hist.append((SLC, [sid]))
+    g.hist.append((MSK, [sid]))
+    g.hist.append((DRN, [sid]))
+    g.hist.append((EMP, [sid]))
+    return g.hist
+
+
+def events_history(rng, length):
+    """C12: the ten wrapped storages, readers registered early and read often, every removal path,
+    emission toggled at random points, no bulk clear."""
+    g = Gen(rng)
+    sids = rng.sample(range(6, 16), rng.randint(1, 3))
+    for sid in sids:
+        g.register(sid)
+        for _ in range(rng.randint(1, 2)):
+            g.hist.append((RREG, [sid]))
+            g.readers[sid] = g.readers.get(sid, 0) + 1
+    while len(g.hist) < length:
+        r = rng.random()
+        if g.nh == 0 or r < 0.14:
+            g.creation()
+        elif r < 0.26:
+            g.deletion()
+        elif r < 0.32:
+            g.hist.append((wg.M, []))
+        elif r < 0.50:
+            sid = rng.choice(sids)
+            k = rng.random()
+            if k < 0.75:
+                g.hist.append((RREAD, [sid, rng.randrange(g.readers[sid])]))
+            elif k < 0.85:
+                g.hist.append((RREG, [sid]))
+                g.readers[sid] += 1
+            else:
+                g.hist.append((SEMIT, [sid, rng.randint(0, 1)]))
+        else:
+            g.storage_op()
+            if g.hist[-1][0] == CLR:
+                g.hist.pop()
+    for sid in sids:
+        for k in range(g.readers[sid]):
+            g.hist.append((RREAD, [sid, k]))
+        g.hist.append((MSK, [sid]))
     g.hist.append((DROPW, []))
     return g.hist
